@@ -26,6 +26,37 @@ def leaf_values(f, o, depth=0, seen=None):
     return [o]
 
 
+def deep_leaves(P, f, o, depth=0):
+    """leaf values of a flag, following helper functions: a call to a repo function is replaced by the leaves of what it returns"""
+    out = []
+    for leaf in leaf_values(f, o):
+        li = f.resolve(leaf)
+        if li is not None and li.op == "call" and li.callee in P.functions and P.functions[li.callee].blocks and depth < 3:
+            g = P.functions[li.callee]
+            for r in g.all_insts():
+                if r.op == "ret" and "val" in r.d:
+                    out += deep_leaves(P, g, r["val"], depth + 1)
+        elif li is not None and li.op == "load" and li["ptr"].get("k") == "inst" and f.insts[li["ptr"]["id"]].op == "alloca" and depth < 6:
+            sts = [s for s in f.all_insts() if s.op == "store" and s["ptr"].get("k") == "inst" and s["ptr"]["id"] == li["ptr"]["id"]]
+            if sts and not any(s["val"].get("k") == "arg" for s in sts):
+                for s in sts:
+                    out += deep_leaves(P, f, s["val"], depth + 1)
+            else:
+                out.append((f, leaf))
+        else:
+            out.append((f, leaf))
+    return out
+
+
+def _describe(f, leaf):
+    li = f.resolve(leaf)
+    if li is not None and li.op == "load" and li["ptr"].get("k") == "global":
+        return "the global %s" % li["ptr"]["name"]
+    if li is not None:
+        return "a %s at line %d" % (li.op, li.line)
+    return str(leaf.get("k"))
+
+
 def run(chk, w):
     P = w.P
     D = dispatch.Dispatch(w)
@@ -109,24 +140,26 @@ def run(chk, w):
                         last = [s for s in dom if not any(disp.dominates(s, s2) and s2 is not s for s2 in dom)]
                         stores = last or dom
                 good = bool(stores)
+                why = None
                 for s in stores:
-                    for leaf in leaf_values(disp, s["val"]):
-                        li = disp.resolve(leaf)
+                    for (lf_fn, leaf) in deep_leaves(P, disp, s["val"]):
+                        li = lf_fn.resolve(leaf)
                         if leaf.get("k") == "const" and (leaf["v"] & 1) == 0:
                             continue
-                        if li is not None and li.op == "load" and rules.field_path_of_ptr(P, disp, li["ptr"]) == FIELD:
-                            # the board pointer comes from a lookup keyed by the sender's address
-                            bp = disp.resolve(li["ptr"])
-                            tags = flow.origins(disp, bp["base"]) if bp is not None and bp.op == "getelementptr" else set()
-                            if any(t[0] == "call" and t[1] and "nodeaddr" in t[1] for t in tags) or any(t[0] == "call" for t in tags):
+                        if li is not None and li.op == "load" and rules.field_path_of_ptr(P, lf_fn, li["ptr"]) == FIELD:
+                            # the board pointer comes from a lookup (a call result)
+                            bp = lf_fn.resolve(li["ptr"])
+                            tags = flow.origins(lf_fn, bp["base"]) if bp is not None and bp.op == "getelementptr" else set()
+                            if any(t[0] == "call" for t in tags):
                                 continue
                         good = False
+                        why = "depends on %s in %s" % (_describe(lf_fn, leaf), lf_fn.name)
                 if good:
                     guard_ok = True
             if guard_ok:
                 chk.ok("C19-GUARD", 1, {"report": rep, "mirror_call": c.loc()})
             else:
-                chk.violation("C19-GUARD", disp.name, rep, c.loc(), "%s: the mirror call is not guarded by the sender board's secack_on flag" % rep)
+                chk.violation("C19-GUARD", disp.name, rep, c.loc(), "%s: the mirror call is not guarded by (only) the sender board's current secack_on flag%s" % (rep, ""))
             # ARGS
             offs = []
             addr_ok = False
